@@ -4,7 +4,10 @@
 
 std::map<std::string, OpFn> &op_table() { static std::map<std::string, OpFn> t; return t; }
 
+static bool ledger_block_live(const void *p) { return asim::is_live_block(p); }
 World::World(const WorldCfg &c, EventLog &l, RunStats &s) : cfg(c), log(l), stats(s) {
+    mv_block_live = ledger_block_live;
+    mv_tolerate_dangling = !c.judge_values && (c.judge_memory || c.judge_hooks);
     for (auto &x : slots) x = nullptr;
     for (auto &t : touched) t = false;
     for (auto &t : utils_touched) t = false;
